@@ -60,6 +60,12 @@ MUT = [
     ('set', "s.set(1, 0)"), ('setall', "s.set(0)"), ('setrange', "s.set(1, range(0, {L}, 3))"), ('setL', "s.set(1, {L})"), ('invert', "s.invert()"),
     ('invertpos', "s.invert([0, -1])"), ('byteswap', "s.byteswap()"), ('byteswap2', "s.byteswap(2)"), ('ilshift', "s <<= 1"), ('irshift', "s >>= 2"),
     ('imul', "s *= 2"), ('iand', "s &= s"), ('ior', "s |= Bits({L})"), ('ixor', "s ^= '0b1'"), ('iadd', "s += '0b1'"), ('clear', "s.clear()"),
+    # derive, mutate the derived object, observe both (a route whose store is wrongly flagged shareable shows here)
+    ('copymut', "(lambda c: (c.append('0b1'), c.invert(), s.bin, c.bin))(s.copy())[2:]"),
+    ('copycopymut', "(lambda c: (c.invert(), c.prepend('0b1'), s.bin, c.bin))(copy.copy(s))[2:]"),
+    ('slicemut', "(lambda c: (c.invert(), s.bin, c.bin))(s[:])[1:]"),
+    ('ctormut', "(lambda c: (c.invert(), c.append('0b0'), s.bin, c.bin))(type(s)(s))[2:]"),
+    ('selfmutcopy', "(lambda c: (s.invert(), s.append('0b1'), s.bin, c.bin))(s.copy())[2:]"),
     ('uintset', "s.uint = 1"), ('hexset', "s.hex = 'a'"), ('u5set', "s.u5 = 3"), ('bitsset', "s.bits = '0b1'"),
 ]
 
